@@ -21,10 +21,11 @@ package reghttp
 
 // getHost returns the (possibly newly created) entry for a host name. Assumed, not verified: it
 // only adds entries to the client's host map and never touches the fields of an existing entry.
+//@ ufun $hostOf(*Client, string) *clientHost
 //@ func (*Client).getHost(host) (ch)
-//@   trusted only adds to Client.host; existing clientHost objects are not written
+//@   trusted only adds to Client.host; existing clientHost objects are not written; one entry per name
 //@   modifies M|map[string]*~/internal/reghttp.clientHost
-//@   ensures ch != nil
+//@   ensures ch != nil && ch == $hostOf(c, host)
 
 // C12 backoff: while a host is in backoff (backoffCur > 0) the next request is released no
 // earlier than the previous release time plus the configured initial delay, and never more than
@@ -34,5 +35,20 @@ package reghttp
 //@   overflow on
 //@   entry-assume resp != nil && resp.client != nil
 //@   entry-assume resp.client.delayInit > 0 && resp.client.delayMax >= resp.client.delayInit
-//@   ensures backoff-at-least-configured-delay: ch.backoffCur > 0 ==> $ns(t) >= $ns(pre(ch.backoffLast)) + resp.client.delayInit
-//@   ensures released-time-recorded: ch.backoffCur > 0 ==> ch.backoffLast == t
+//@   let h0 = $hostOf(resp.client, resp.mirror)
+//@   ensures backoff-at-least-configured-delay: h0.backoffCur > 0 ==> $ns(t) >= $ns(old(h0.backoffLast)) + resp.client.delayInit
+//@   ensures released-time-recorded: h0.backoffCur > 0 ==> h0.backoffLast == t
+
+// C12 attempt bound: one logical request is attempted at most retryLimit+1 times (plus the one
+// documented extra attempt that allows for an authentication round trip). Every iteration of the
+// request loop that does not return consumes one unit of the retry budget; the budget is the
+// variant of the loop. (Resp.Read resumes by calling next() on the same Resp, so the budget is
+// cumulative over connection drops; Seek compensates its own decrement.)
+//@ func (*Resp).next() (err)
+//@   prop C12
+//@   entry-assume resp != nil && resp.client != nil
+//@   owns resp.retryCount  // the Resp is allocated by Do after the request and its closures exist; only methods called on this Resp write it
+//@   owns resp.client
+//@   owns resp.client.retryLimit  // configuration, written only by the constructor options
+//@   loop 1 ()
+//@     decreases attempts-bounded: c.retryLimit + 2 - resp.retryCount
